@@ -147,3 +147,84 @@ make_key_lemma = Contract(
 )
 
 CONTRACTS = [make_key_lemma]
+
+# =================================================================================================
+# ConstantPropagationOptimizer._maybe_mark_dead: a constant is deleted only if NO remaining operation
+# of the program reads it — whatever the kind of the reader.  The reader kinds and their reference
+# fields are the spec table below (IR node definitions, dsl_compiler/src/ir/nodes.py).
+# List-length bound: the operation list has 2 entries of arbitrary kinds (the statement is per entry).
+# =================================================================================================
+CP = "dsl_compiler/src/ir/optimizer.py::ConstantPropagationOptimizer."
+_VREF = ty.TUnion((ty.TObj("SignalRef", only=("SignalRef",)), ty.Int))  # (a BundleRef takes the same non-SignalRef branch as an int)
+_KINDS = ("IRArith", "IRDecider", "IRWireMerge", "IRMemWrite", "IRLatchWrite", "IREntityPropWrite", "IRPlaceEntity", "IRConst", "IRMemRead")
+_COND = ty.TObj("DeciderCondition", only=("DeciderCondition",), ftypes=(("first_operand", ty.TOpt(_VREF)), ("second_operand", ty.TOpt(_VREF))))
+_OPT_COND = ty.TOpt(ty.TTuple((_VREF, ty.Str, ty.Int)))
+_NODE_F = (("node_id", ty.Str), ("left", _VREF), ("right", _VREF), ("output_value", _VREF), ("data_signal", _VREF), ("write_enable", _VREF),
+           ("value", _VREF), ("set_signal", _VREF), ("reset_signal", _VREF), ("x", _VREF), ("y", _VREF),
+           ("set_condition", _OPT_COND), ("reset_condition", _OPT_COND))
+
+
+def _reads(o, nid):
+    """spec: the operation o reads the node nid (reference fields per node kind)"""
+    def r(v):
+        if isinstance(v, SObj):
+            return And(isa(v, "SignalRef"), v.source_id == nid) if "SignalRef" in v._cls_set else False
+        return False
+    def fields():
+        if isa(o, "IRArith"):
+            return [o.left, o.right]
+        if isa(o, "IRDecider"):
+            out = [o.left, o.right, o.output_value]
+            for c in o.conditions:
+                out += [c.first_operand, c.second_operand]
+            return out
+        if isa(o, "IRWireMerge"):
+            return list(o.sources)
+        if isa(o, "IRMemWrite"):
+            return [o.data_signal, o.write_enable]
+        if isa(o, "IRLatchWrite"):
+            out = [o.value, o.set_signal, o.reset_signal]
+            for t in (o.set_condition, o.reset_condition):
+                if t is not None:
+                    out.append(t[0])
+            return out
+        if isa(o, "IREntityPropWrite"):
+            return [o.value]
+        if isa(o, "IRPlaceEntity"):
+            return [o.x, o.y]
+        return []
+    return Or(*[r(v) for v in fields() if v is not None]) if fields() else False
+
+
+def _mark_dead_post(a, res):
+    def has(st, k):
+        return z3.Select(st.member, k)
+    old, new = a.old.self.dead_nodes, a.self.dead_nodes
+    cs = []
+    for o in a.all_ops:
+        cs.append(Or(o.node_id == a.node_id, has(old, o.node_id), Not(_reads(o, a.node_id))))
+    return Implies(And(has(new, a.node_id), Not(has(old, a.node_id))), And(*cs))
+
+
+def _mk_ops_types(k1, k2):
+    t = {}
+    for i, k in enumerate((k1, k2)):
+        t[f"all_ops[{i}]"] = None
+    return t
+
+
+def _ops_type(kinds_list):
+    return ty.TTuple(tuple(ty.TObj("IRNode", only=(k,), ftypes=_NODE_F + (("conditions", ty.TTuple((_COND,))), ("sources", ty.TTuple((_VREF, _VREF)))))
+                           for k in kinds_list))
+
+
+for _ks in [(k,) for k in _KINDS] + [("IRConst", "IRArith"), ("IRMemRead", "IREntityPropWrite"), ("IRArith", "IRWireMerge")]:
+    CONTRACTS.append(Contract(
+        qualname=CP + "_maybe_mark_dead",
+        params={"self": ty.TObj("ConstantPropagationOptimizer", only=("ConstantPropagationOptimizer",)), "node_id": ty.Str,
+                "const_map": ty.TObjMap(ty.Str, ty.TObj("IRConst", only=("IRConst",), ftypes=(("debug_metadata", ty.TRecord((("user_declared", ty.Bool),))),))),
+                "all_ops": _ops_type(_ks)},
+        ensures=[("a constant is marked dead only if no live operation reads it", _mark_dead_post)],
+        uses={"ConstantPropagationOptimizer._references_node": "inline", "fn:_operands": "inline", "fn:_map_operands": "inline", "fn:collect": "inline"},
+        dynamic_types={"self": {"dead_nodes": ty.TSet(ty.Str)}},
+        properties=("C10",), min_obligations=1, no_replay=True, note=f"operation list of kinds {'+'.join(_ks)} (bounded list length {len(_ks)})"))
